@@ -450,6 +450,87 @@ def _replay_lifecycle(cex, v, vm):
     return REPLAY_LIFECYCLE
 
 
+EPOCH_REPLAY = r'''
+use similari::track::{ObservationsDb, LookupRequest, TrackStatus};
+use similari::trackers::epoch_db::EpochDb;
+use similari::trackers::sort::{SortAttributes, SortAttributesOptions, SortLookup};
+use similari::trackers::spatio_temporal_constraints::SpatioTemporalConstraints;
+use similari::trackers::visual_sort::track_attributes::{VisualAttributes, VisualSortLookup};
+use similari::utils::bbox::Universal2DBox;
+use std::collections::HashMap;
+use std::sync::{Arc, RwLock};
+
+fn opts(entries: &[(u64, usize)], max_idle: usize) -> SortAttributesOptions {
+    SortAttributesOptions::new(Some(RwLock::new(HashMap::from_iter(entries.iter().cloned()))), max_idle, 1, SpatioTemporalConstraints::default(), 0.05, 0.00625)
+}
+fn cur(entries: &[(u64, usize)], s: u64) -> usize { entries.iter().find(|e| e.0 == s).map(|e| e.1).unwrap_or(0) }
+fn code(s: TrackStatus) -> u8 { match s { TrackStatus::Ready => 0, TrackStatus::Pending => 1, TrackStatus::Wasted => 2 } }
+
+#[test]
+fn replay() {
+    let entries: Vec<(u64, usize)> = vec![%(entries)s];
+    let max_idle: usize = %(max_idle)d;
+    let scenes: Vec<u64> = vec![%(scenes)s];
+    let n: usize = %(n)d;
+    let lasts: Vec<usize> = vec![%(lasts)s];
+    for s in &scenes {
+        // next_epoch: +1 for that scene (1 for a new scene), others untouched
+        let o = opts(&entries, max_idle);
+        assert_eq!(o.next_epoch(*s), Some(cur(&entries, *s) + 1));
+        for p in &scenes { assert_eq!(o.current_epoch_with_scene(*p), Some(cur(&entries, *p) + if p == s { 1 } else { 0 }), "next_epoch touches only its scene"); }
+        // skip: +n
+        let o = opts(&entries, max_idle);
+        o.skip_epochs_for_scene(*s, n);
+        for p in &scenes { assert_eq!(o.current_epoch_with_scene(*p), Some(cur(&entries, *p) + if p == s { n } else { 0 }), "skip_epochs touches only its scene"); }
+        // current epoch: stored value, 0 if unknown, nothing changes
+        let o = opts(&entries, max_idle);
+        assert_eq!(o.current_epoch_with_scene(*s), Some(cur(&entries, *s)));
+        assert_eq!(o.current_epoch_with_scene(*s), Some(cur(&entries, *s)));
+        // baked: Wasted exactly when last + max_idle < current epoch
+        for last in &lasts {
+            let st = o.baked(*s, *last).unwrap();
+            assert_eq!(code(st), if *last + max_idle < cur(&entries, *s) { 2 } else { 1 }, "baked(scene {}, last {})", s, last);
+            // idle lookup: same scene and not updated in the scene's current epoch
+            let oa = Arc::new(opts(&entries, max_idle));
+            let mut a = SortAttributes::new(oa.clone());
+            a.scene_id = *s; a.last_updated_epoch = *last;
+            let mut va = VisualAttributes::new(oa.clone());
+            va.scene_id = *s; va.last_updated_epoch = *last;
+            let _ = Universal2DBox::new(0.0, 0.0, None, 1.0, 1.0);
+            for q in &scenes {
+                let expect = q == s && *last != cur(&entries, *s);
+                assert_eq!(SortLookup::IdleLookup(*q).lookup(&a, &ObservationsDb::default(), &[]), expect, "SortLookup::IdleLookup");
+                assert_eq!(VisualSortLookup::IdleLookup(*q).lookup(&va, &ObservationsDb::default(), &[]), expect, "VisualSortLookup::IdleLookup");
+            }
+        }
+    }
+    let no_db = SortAttributesOptions::new(None, max_idle, 1, SpatioTemporalConstraints::default(), 0.05, 0.00625);
+    assert_eq!(code(no_db.baked(scenes[0], lasts[0]).unwrap()), 0, "without an epoch db tracks are Ready");
+}
+'''
+
+
+def _replay_epoch(cex, v, vm):
+    inp = {k.split('!')[0]: val for k, val in cex["inputs"].items() if isinstance(val, int)}
+    M62 = 2 ** 62
+    entries, scenes = [], []
+    i = 0
+    while 'scene%d' % i in inp:
+        if inp['scene%d' % i] not in [e[0] for e in entries]:
+            entries.append((inp['scene%d' % i], inp.get('epoch%d' % i, 0) % M62))
+        i += 1
+    for k in ('scene', 'probe', 'scene_t', 'scene_q'):
+        if k in inp:
+            scenes.append(inp[k])
+    scenes += [e[0] for e in entries] + [12345]
+    scenes = list(dict.fromkeys(scenes))
+    lasts = [inp[k] % M62 for k in ('last_updated', 'last', 'last_t') if k in inp] + [e[1] for e in entries] + [0, 1]
+    lasts = list(dict.fromkeys(lasts))
+    return (EPOCH_REPLAY.replace("%(entries)s", ", ".join("(%du64, %dusize)" % e for e in entries))
+            .replace("%(max_idle)d", str(inp.get('max_idle', 1) % M62)).replace("%(scenes)s", ", ".join("%du64" % x for x in scenes))
+            .replace("%(n)d", str(inp.get('n', 3) % M62)).replace("%(lasts)s", ", ".join("%dusize" % x for x in lasts)))
+
+
 def _replay_compat_c03(kind):
     import C20
     def render(cex, v, vm):
@@ -467,14 +548,14 @@ E = "similari::trackers::epoch_db::EpochDb::"
 T = "similari::trackers::tracker_api::TrackerAPI::"
 MIR = [
     MQ("c03_next_epoch", "quick", _mk_epoch_query('next_epoch', 2), "next_epoch: +1 for the scene (1 for a new scene), other scenes untouched",
-       "symbolic map with 2 entries (thorough: 3), symbolic scene", [E + "next_epoch"]),
-    MQ("c03_next_epoch_3", "thorough", _mk_epoch_query('next_epoch', 3), "next_epoch with 3 map entries", "3 entries", [E + "next_epoch"]),
+       "symbolic map with 2 entries (thorough: 3), symbolic scene", [E + "next_epoch"], replay=_replay_epoch),
+    MQ("c03_next_epoch_3", "thorough", _mk_epoch_query('next_epoch', 3), "next_epoch with 3 map entries", "3 entries", [E + "next_epoch"], replay=_replay_epoch),
     MQ("c03_skip_epochs", "quick", _mk_epoch_query('skip_epochs_for_scene', 2), "skip_epochs_for_scene: +n for the scene, others untouched",
-       "2 entries, n < 2^62", [E + "skip_epochs_for_scene"]),
+       "2 entries, n < 2^62", [E + "skip_epochs_for_scene"], replay=_replay_epoch),
     MQ("c03_current_epoch", "quick", _mk_epoch_query('current_epoch_with_scene', 2), "current epoch = stored value, 0 if unknown; map unchanged",
-       "2 entries", [E + "current_epoch_with_scene"]),
-    MQ("c03_baked", "quick", q_baked, "baked: Wasted iff last_updated + max_idle < current epoch, else Pending", "2 entries, values < 2^62", [E + "baked"]),
-    MQ("c03_baked_no_db", "quick", q_baked_no_db, "baked without epoch db: Ready", "all inputs", [E + "baked"]),
+       "2 entries", [E + "current_epoch_with_scene"], replay=_replay_epoch),
+    MQ("c03_baked", "quick", q_baked, "baked: Wasted iff last_updated + max_idle < current epoch, else Pending", "2 entries, values < 2^62", [E + "baked"], replay=_replay_epoch),
+    MQ("c03_baked_no_db", "quick", q_baked_no_db, "baked without epoch db: Ready", "all inputs", [E + "baked"], replay=_replay_epoch),
     MQ("c03_compatible_expired_sort", "quick", _mk_compat_expired('sort'),
        "SortAttributes::compatible: expired tracks never compatible with a current-epoch candidate; = same scene and gap <= max idle",
        "symbolic scenes/epochs/max_idle, both argument orders, empty constraint table", ["similari::trackers::sort::SortAttributes::compatible"],
@@ -483,9 +564,9 @@ MIR = [
        "VisualAttributes::compatible: same", "same", ["similari::trackers::visual_sort::track_attributes::VisualAttributes::compatible"],
        spec_calls=_dist_override, replay=_replay_compat_c03('visual')),
     MQ("c03_idle_lookup_sort", "quick", _mk_idle_lookup('sort'), "SortLookup::IdleLookup = same scene and last_updated != current epoch",
-       "symbolic", ["similari::trackers::sort::SortLookup::lookup"]),
+       "symbolic", ["similari::trackers::sort::SortLookup::lookup"], replay=_replay_epoch),
     MQ("c03_idle_lookup_visual", "quick", _mk_idle_lookup('visual'), "VisualSortLookup::IdleLookup = same", "symbolic",
-       ["similari::trackers::visual_sort::track_attributes::VisualSortLookup::lookup"]),
+       ["similari::trackers::visual_sort::track_attributes::VisualSortLookup::lookup"], replay=_replay_epoch),
 ]
 for (m, tier, nm, nw) in [('auto_waste', 'quick', 2, 1), ('auto_waste', 'thorough', 3, 2), ('wasted', 'quick', 2, 1), ('wasted', 'thorough', 3, 2),
                           ('clear_wasted', 'quick', 2, 1), ('active_shard_stats', 'quick', 2, 1), ('wasted_shard_stats', 'quick', 2, 1),
